@@ -348,9 +348,89 @@ def add_stream(U):
 """)
 
 
+PRELUDE_HS = r"""
+// ---------------- prelude for Stream::handshake (A3: snow HandshakeState; A4: io helpers) ----------------
+#[verifier::external_body] pub struct Ctx { _p: u8 }
+#[verifier::external_body] pub struct Canceled { _p: u8 }
+#[verifier::external_body] pub struct AnyhowError { _p: u8 }
+#[verifier::external_body] pub struct CtxError { _p: u8 }
+#[verifier::external_body] pub struct HandshakeState { _p: u8 }          // snow::HandshakeState
+#[verifier::external_body] pub struct Transport { _p: u8 }               // the underlying stream S
+#[verifier::external_body] pub struct NoiseStream { _p: u8 }             // Stream<S> (constructed at the end of the handshake)
+impl From<Canceled> for CtxError { #[verifier::external_body] fn from(e: Canceled) -> (r: CtxError) { unimplemented!() } }
+impl From<AnyhowError> for CtxError { #[verifier::external_body] fn from(e: AnyhowError) -> (r: CtxError) { unimplemented!() } }
+pub trait VerifContext<T> { fn context(self, c: ()) -> Result<T, AnyhowError>; }
+impl<T> VerifContext<T> for Result<T, IoError> {        // anyhow::Context keeps Ok-ness and the value (A1)
+    #[verifier::external_body] fn context(self, c: ()) -> (r: Result<T, AnyhowError>)
+        ensures r.is_ok() == self.is_ok(), self.is_ok() ==> r == Result::<T, AnyhowError>::Ok(self->Ok_0) { unimplemented!() }
+}
+impl<T> VerifContext<T> for Result<T, NoiseError> {
+    #[verifier::external_body] fn context(self, c: ()) -> (r: Result<T, AnyhowError>)
+        ensures r.is_ok() == self.is_ok(), self.is_ok() ==> r == Result::<T, AnyhowError>::Ok(self->Ok_0) { unimplemented!() }
+}
+impl HandshakeState {
+    #[verifier::external_body] pub fn is_handshake_finished(&self) -> bool { unimplemented!() }
+    #[verifier::external_body] pub fn is_my_turn(&self) -> bool { unimplemented!() }
+    // A3 (snow): a handshake message is at most 65535 bytes and fits the output buffer, otherwise an error (no panic)
+    #[verifier::external_body]
+    pub fn write_message(&mut self, payload: &[u8], out: &mut [u8]) -> (r: Result<usize, NoiseError>)
+        ensures final(out)@.len() == old(out)@.len(), r matches Ok(n) ==> n <= old(out)@.len() && n <= 65535 { unimplemented!() }
+    // A3 (snow): rejects (no panic) messages it cannot parse, whatever their length
+    #[verifier::external_body]
+    pub fn read_message(&mut self, msg: &[u8], payload: &mut Vec<u8>) -> (r: Result<usize, NoiseError>) { unimplemented!() }
+}
+#[verifier::external_body] pub async fn io_write_all(ctx: &Ctx, s: &mut Transport, buf: &[u8]) -> (r: Result<Result<(), IoError>, Canceled>) { unimplemented!() }
+#[verifier::external_body] pub async fn io_flush(ctx: &Ctx, s: &mut Transport) -> (r: Result<Result<(), IoError>, Canceled>) { unimplemented!() }
+#[verifier::external_body] pub async fn io_read_exact(ctx: &Ctx, s: &mut Transport, buf: &mut [u8]) -> (r: Result<Result<(), IoError>, Canceled>)
+    ensures final(buf)@.len() == old(buf)@.len() { unimplemented!() }
+#[verifier::external_body] pub async fn io_read_exact_2(ctx: &Ctx, s: &mut Transport, buf: &mut [u8; 2]) -> (r: Result<Result<(), IoError>, Canceled>) { unimplemented!() }
+// R-stub: the final `Self { id: ByteFmt::decode(hs.get_handshake_hash()).unwrap(), inner, noise: hs.into_transport_mode()?, read_buf, write_buf }`
+#[verifier::external_body] pub fn finish_handshake(stream: Transport, hs: HandshakeState) -> (r: Result<NoiseStream, AnyhowError>) { unimplemented!() }
+#[verifier::external_body] pub fn verif_vec_zeroed(n: usize) -> (r: Vec<u8>) ensures r@.len() == n { vec![0; n] }          // A1 (R-std: vec![0; n])
+#[verifier::external_body] pub fn verif_vec_prefix(v: &Vec<u8>, n: usize) -> (r: &[u8]) requires n <= v@.len() ensures r@ == v@.subrange(0, n as int) { &v[..n] }     // A1 (R-std)
+#[verifier::external_body] pub fn verif_vec_prefix_mut(v: &mut Vec<u8>, n: usize) -> (r: &mut [u8]) requires n <= old(v)@.len()
+    ensures r@.len() == n, final(v)@.len() == old(v)@.len() { &mut v[..n] }                                                 // A1 (R-std)
+#[verifier::external_body] pub fn verif_vec_mut(v: &mut Vec<u8>) -> (r: &mut [u8]) ensures r@.len() == old(v)@.len(), final(v)@.len() == old(v)@.len() { &mut v[..] }
+"""
+
+
+def add_handshake(U):
+    U.raw(PRELUDE_HS, label="prelude noise handshake")
+    U.fn(F_S, IMPL + " :: fn handshake", ret="r", props=["C10", "C13"],
+         attrs="#[verifier::exec_allows_no_decreases_clause]",
+         header_subs=[("ctx::Ctx", "Ctx"), ("mut stream: S", "stream: Transport"), ("mut hs: snow::HandshakeState", "hs: HandshakeState"),
+                      ("ctx::Result<Self>", "Result<NoiseStream, CtxError>")],
+         proof_at_start="let mut stream = stream; let mut hs = hs;   /* R-mutparam */",
+         subs=[("let mut buf = vec![0; $N];", "let mut buf = verif_vec_zeroed($N);   /* R-std */"),
+               ("let mut payload = vec![];", "let mut payload: Vec<u8> = Vec::new();   /* R-std */"),
+               ("""return Ok(Self {
+                    // Unwrap is ok, because handshake hash has a constant length.
+                    id: ByteFmt::decode(hs.get_handshake_hash()).unwrap(),
+                    inner: stream,
+                    noise: hs.into_transport_mode().context(())?,
+                    read_buf: Box::default(),
+                    write_buf: Box::default(),
+                });""" if False else "return Ok(Self { $B });", "return Ok(finish_handshake(stream, hs)?);   /* R-stub: struct construction from snow/pin types */"),
+               ("hs\n                    .write_message(&payload, &mut buf)", "hs\n                    .write_message(payload.as_slice(), verif_vec_mut(&mut buf))   /* R-std */"),
+               ("io::write_all(ctx, &mut stream, &u16::to_le_bytes(n as u16))", "io_write_all(ctx, &mut stream, verif_u16_to_le(verif_usize_to_u16(n)).as_slice())   /* R-std, R-cast */"),
+               ("io::write_all(ctx, &mut stream, &buf[..n])", "io_write_all(ctx, &mut stream, verif_vec_prefix(&buf, n))   /* R-std */"),
+               ("io::flush(ctx, &mut stream)", "io_flush(ctx, &mut stream)"),
+               ("io::read_exact(ctx, &mut stream, &mut msg_size)", "io_read_exact_2(ctx, &mut stream, &mut msg_size)"),
+               ("u16::from_le_bytes(msg_size)", "verif_u16_from_le(msg_size)   /* R-std */"),
+               ("io::read_exact(ctx, &mut stream, &mut buf[..n])", "io_read_exact(ctx, &mut stream, verif_vec_prefix_mut(&mut buf, n))   /* R-std */"),
+               ("hs.read_message(&buf[..n], &mut payload)", "hs.read_message(verif_vec_prefix(&buf, n), &mut payload)   /* R-std */")],
+         loops={0: dict(prefix="loop", inv="buf@.len() > 65535,      // any 16-bit length the peer announces fits the buffer")},
+         spec="""
+    // for EVERY byte string the peer sends during the handshake: no index out of range (the 16-bit length always fits the buffer),
+    // no truncated length prefix, no panic -- it ends with a session or an error
+    ensures true,
+""")
+
+
 def build(repo):
-    U = Unit("noise", ["C13"], desc="noise transport", uses="use std::task::Poll;\nuse std::task::ready;", crate_attrs="#![feature(allocator_api)]")
+    U = Unit("noise", ["C13", "C10"], desc="noise transport", uses="use std::task::Poll;\nuse std::task::ready;", crate_attrs="#![feature(allocator_api)]")
     U.repo = repo
     add_buffer(U)
     add_stream(U)
+    add_handshake(U)
     return U
